@@ -800,6 +800,12 @@ func replayFile(t *testing.T, path string) {
 		if _, f := runHistory(p); f != "" {
 			ev.Fail(t, test, p, "template %q: %s", p.Src, f)
 		}
+	case "TestHostCallArgs":
+		var p hostCallPayload
+		if _, err := ev.LoadReplay(path, &p); err != nil {
+			t.Fatalf("load %s: %v", path, err)
+		}
+		checkHostCall(t, test, p)
 	default:
 		t.Fatalf("unknown test %q in %s", test, path)
 	}
